@@ -174,13 +174,24 @@ func (aw *AsyncWorker) doBranchCommit(phaseCtxs *[]phaseTwoContext) {
 	}
 }
 
+// requeue puts a context that could not be handled back into the queue. It
+// must not block the worker: the queue is drained by run(), which itself may be
+// waiting for a free worker, so a blocking send on a full queue never returns.
+func (aw *AsyncWorker) requeue(phaseCtx phaseTwoContext) {
+	verifRequeue()
+	select {
+	case aw.commitQueue <- phaseCtx:
+	default:
+		go func() { aw.commitQueue <- phaseCtx }()
+	}
+}
+
 func (aw *AsyncWorker) dealWithGroupedContexts(resID string, phaseCtxs []phaseTwoContext) {
 	val, ok := aw.resourceMgr.GetCachedResources().Load(resID)
 	if !ok {
 		for i := range phaseCtxs {
 			aw.rePutBackToQueue.Add(1)
-			verifRequeue()
-			aw.commitQueue <- phaseCtxs[i]
+			aw.requeue(phaseCtxs[i])
 		}
 		return
 	}
@@ -190,8 +201,7 @@ func (aw *AsyncWorker) dealWithGroupedContexts(resID string, phaseCtxs []phaseTw
 	if err != nil {
 		for i := range phaseCtxs {
 			aw.rePutBackToQueue.Add(1)
-			verifRequeue()
-			aw.commitQueue <- phaseCtxs[i]
+			aw.requeue(phaseCtxs[i])
 		}
 		return
 	}
@@ -202,8 +212,7 @@ func (aw *AsyncWorker) dealWithGroupedContexts(resID string, phaseCtxs []phaseTw
 	if err != nil {
 		for i := range phaseCtxs {
 			aw.rePutBackToQueue.Add(1)
-			verifRequeue()
-			aw.commitQueue <- phaseCtxs[i]
+			aw.requeue(phaseCtxs[i])
 		}
 		return
 	}
@@ -212,8 +221,7 @@ func (aw *AsyncWorker) dealWithGroupedContexts(resID string, phaseCtxs []phaseTw
 		phaseCtx := phaseCtxs[i]
 		if err := undoMgr.BatchDeleteUndoLog([]string{phaseCtx.Xid}, []int64{phaseCtx.BranchID}, conn); err != nil {
 			aw.rePutBackToQueue.Add(1)
-			verifRequeue()
-			aw.commitQueue <- phaseCtx
+			aw.requeue(phaseCtx)
 		}
 	}
 }
